@@ -88,7 +88,17 @@ type vfC15Worker struct {
 	sess  [2]*Session
 	nodes [2]*vfNode
 	cur   atomic.Value // *vfC15Run
-	stale int64
+	stale int64        // requests that belong to no running iteration
+	late  int64        // ... of which: prefetches of iterators the caller had abandoned (expected; nobody waits for them)
+	abJob sync.Map     // jobs in which the caller abandoned an iterator
+}
+
+func (w *vfC15Worker) countStale(job int) {
+	if _, ok := w.abJob.Load(job); ok {
+		atomic.AddInt64(&w.late, 1)
+	} else {
+		atomic.AddInt64(&w.stale, 1)
+	}
 }
 
 func vfC15RunOf(text string) int {
@@ -138,7 +148,7 @@ func (w *vfC15Worker) handle(nc *vfNodeConn, f *vfFrame, q *vfRequest) bool {
 		}
 		r, _ := w.cur.Load().(*vfC15Run)
 		if r == nil || r.c.Run != run || atomic.LoadInt32(&r.ended) != 0 {
-			atomic.AddInt64(&w.stale, 1)
+			w.countStale(run)
 			nc.Reply(f, vfOpError, vfErrorBody(0x0000, "vf-stale request of a finished iteration", nil))
 			return true
 		}
@@ -148,7 +158,7 @@ func (w *vfC15Worker) handle(nc *vfNodeConn, f *vfFrame, q *vfRequest) bool {
 			// abandoned iterator that is still under way, or state that leaked into the re-executed Query. It is
 			// not logged as a request of this execution (the two cannot be told apart on the wire); it is served
 			// like any request, so whatever the caller is handed because of it shows in the rows it receives.
-			atomic.AddInt64(&w.stale, 1)
+			w.countStale(run)
 			r.serve(nc, f, q, tok, 0, false)
 			return true
 		}
@@ -527,6 +537,7 @@ func (w *vfC15Worker) runExec(c vfC15Case, exec int, q *Query, rel bool, seed in
 	r.tr.Emit("end", "run", r.id, "normal", normal, "errpage", errpage, "exposed", exposed, "errmsg", msg, "qtok", qtok)
 	r.pending.Wait()
 	if stopped {
+		w.abJob.Store(c.Run, true)
 		// a prefetch the abandoned iterator has started may still be on its way: give it a moment to arrive while
 		// it can still be attributed to this execution (later it is recognised by its paging state and set aside)
 		for i := 0; i < 3; i++ {
@@ -584,7 +595,7 @@ func TestVfC15Run(t *testing.T) {
 	}
 	defer resOut.Close()
 	var wg sync.WaitGroup
-	var stale, done int64
+	var stale, late, done int64
 	errs := make(chan error, nw)
 	t0 := time.Now()
 	for wi := 0; wi < nw; wi++ {
@@ -628,6 +639,7 @@ func TestVfC15Run(t *testing.T) {
 				}
 			}
 			atomic.AddInt64(&stale, atomic.LoadInt64(&w.stale))
+			atomic.AddInt64(&late, atomic.LoadInt64(&w.late))
 		}(wi)
 	}
 	wg.Wait()
@@ -636,6 +648,6 @@ func TestVfC15Run(t *testing.T) {
 		t.Fatalf("worker setup failed: %v", err)
 	default:
 	}
-	sum, _ := json.Marshal(map[string]interface{}{"runs": done, "stale": stale, "workers": nw, "ms": time.Since(t0).Milliseconds()})
+	sum, _ := json.Marshal(map[string]interface{}{"runs": done, "stale": stale, "late_prefetches_of_abandoned_iterators": late, "workers": nw, "ms": time.Since(t0).Milliseconds()})
 	fmt.Printf("VFSUMMARY %s\n", sum)
 }
